@@ -1,4 +1,5 @@
 import PatVerif.Drive.C19
+import PatVerif.Drive.C04
 /-! Line-protocol driver: one operation per input line, one outcome line per operation,
 computed by the model definitions the theorems are about. -/
 open PatVerif
@@ -9,6 +10,7 @@ def dispatch (line : String) : String :=
   | op :: args =>
     let r :=
       if op.startsWith "c19." then Drive.C19.handle op args
+      else if op.startsWith "c04." then Drive.C04.handle op args
       else none
     match r with
     | some s => s
